@@ -707,3 +707,24 @@ def resolve_through_closure(F, body, origins):
                 continue
         out.add((body, o))
     return out
+
+
+def deps_with_env(F, body, op, _depth=0):
+    """dep_closure extended through closure captures: set of (body path, kind, data)."""
+    d = dep_closure(body, op)
+    out = {(body.path, k, x) for (k, x) in d}
+    if body.kind == "Closure" and ("param", 1) in d and _depth < 4:
+        for idx, (pb, cop) in closure_env_map(F, body).items():
+            out |= deps_with_env(F, pb, cop, _depth + 1)
+    return out
+
+
+def next_sources(F, body, op):
+    """(body path, bb) of the Iterator::next calls the operand's value depends on (through closure captures)."""
+    out = set()
+    for (p, k, x) in deps_with_env(F, body, op):
+        if k == "call":
+            b = F.fns.get(p)
+            if b is not None and callee_decl(b.blocks[x].term).endswith("Iterator::next"):
+                out.add((p, x))
+    return out
